@@ -31,6 +31,8 @@ pub enum Op {
     Params(u8, u8),
     Prove { case: u16, rng: u64 },
     Verify { case: u16, mode: u8 },
+    /// the same triple under ANOTHER transcript context (stand-alone result: an error)
+    VerifyOtherContext { case: u16, mode: u8 },
     /// batch [case a, case b] with b's proof altered: 0 => s1 + 1 (fails at the final check), 1 => undecodable A1 (fails while
     /// processing the second member), 2 => unaltered (valid batch)
     Batch { a: u16, b: u16, mode: u8, bad: u8 },
@@ -58,8 +60,9 @@ pub struct SchedSpec {
 
 fn op_strategy() -> impl Strategy<Value = Op> {
     prop_oneof![
-        1 => (1u8..=6).prop_map(Op::Gens),
-        1 => (0u8..4, 0u8..3).prop_map(|(b, c)| Op::Params(b, c)),
+        2 => (1u8..=6).prop_map(Op::Gens),
+        4 => (0u8..80).prop_map(|x| if x == 0 { Op::Params(6, 4) } else { Op::Params(x % 4, x % 3) }),
+        3 => (any::<u16>(), 0u8..2).prop_map(|(case, mode)| Op::VerifyOtherContext { case, mode }),
         4 => (any::<u16>(), 0u64..4).prop_map(|(case, rng)| Op::Prove { case, rng }),
         4 => (any::<u16>(), 0u8..3).prop_map(|(case, mode)| Op::Verify { case, mode }),
         4 => (any::<u16>(), any::<u16>(), 0u8..3, 0u8..3).prop_map(|(a, b, mode, bad)| Op::Batch { a, b, mode, bad }),
@@ -154,8 +157,8 @@ fn exec(world: &World, op: &Op) -> Result<u64, String> {
             hash_of(&bytes)
         },
         Op::Params(b, c) => {
-            let bits = BITS[*b as usize % 4];
-            let cap = 1usize << c;
+            let bits = BITS[*b as usize % 7];
+            let cap = 1usize << (c % 6);
             let p = guarded(|| RangeParameters::init(bits, cap, ristretto::create_pedersen_gens_with_extension_degree(ext_of(world.ext))))?
                 .map_err(|e| format!("{:?}", e))?;
             let bytes: Vec<[u8; 32]> = p.gi_base_iter().chain(p.hi_base_iter()).map(|x| x.compress().to_bytes()).collect();
@@ -172,6 +175,11 @@ fn exec(world: &World, op: &Op) -> Result<u64, String> {
         Op::Verify { case, mode } => {
             let c = &world.cases[pick(*case, n)];
             let r = guarded(|| RangeProof::verify_batch(&mut [Transcript::new(b"c18")], &[c.st.clone()], &[c.proof.clone()], modes[*mode as usize % 3]))?;
+            masks_digest(&r)
+        },
+        Op::VerifyOtherContext { case, mode } => {
+            let c = &world.cases[pick(*case, n)];
+            let r = guarded(|| RangeProof::verify_batch(&mut [Transcript::new(b"c18-other")], &[c.st.clone()], &[c.proof.clone()], modes[*mode as usize % 2]))?;
             masks_digest(&r)
         },
         Op::Batch { a, b, mode, bad } => {
@@ -224,6 +232,9 @@ pub fn oracle(_ctx: &RunCtx, spec: &SchedSpec, log: &mut CaseLog) -> Result<(), 
             }
         }
     }
+    // ops whose stand-alone result is an error run first: a later success that "teaches" the process something (a memo of
+    // verified proofs, say) then shows as a different result in the second pass
+    distinct.sort_by_key(|op| !matches!(op, Op::VerifyOtherContext { .. }));
     let mut base = std::collections::HashMap::new();
     for op in &distinct {
         base.insert(op.clone(), exec(&world, op).map_err(|e| format!("{} while executing {:?}", e, op))?);
@@ -423,7 +434,7 @@ pub fn def() -> PropertyDef {
         level: "exploration",
         rule: "Three generators. (1) histories x schedules: a pool of 2-5 statements (aggregation 1-4, with / without seed) built from CLONES \
                OF ONE shared parameter object, and one generated history of 5-24 ops per thread for 1-16 threads (quick: <= 8), ops in {create \
-               Pedersen generators, construct parameters, prove(case, rng), verify(case, mode), verify a 2-batch whose second proof is valid / \
+               Pedersen generators, construct parameters (small, occasionally 64 x 16), prove(case, rng), verify(case, mode), verify under another context, verify a 2-batch whose second proof is valid / \
                fails the final check / fails while being processed, encode+decode}; every distinct op is first executed on the calling thread, \
                then the whole list again in reverse order (a result that depends on what ran before differs between the passes), then the \
                threads are released by a barrier with generated spin delays and every op's digest (proof bytes, Ok + masks or Err, generator \
